@@ -608,61 +608,11 @@ pub fn run_history<S: Subject>(c: &Case, name: &str) -> Result<Stats, String> {
     Ok(stats)
 }
 
-pub struct C01;
+pub type RawOp = (u8, u16, u16, u8, u8, i64);
 
-fn op_strategy() -> impl Strategy<Value = (u8, u16, u16, u8, u8, i64)> {
-    (
-        any::<u8>(),
-        any::<u16>(),
-        any::<u16>(),
-        any::<u8>(),
-        any::<u8>(),
-        prop_oneof![
-            6 => -20..20_i64,
-            2 => any::<i64>(),
-            1 => Just(i64::MAX),
-            1 => Just(i64::MIN),
-            1 => Just(-1_i64),
-        ],
-    )
-}
-
-impl Prop for C01 {
-    type Case = Case;
-    const ID: &'static str = "C01";
-    const NUM: u64 = 1;
-    const RULE: &'static str = "stateful / model-based: representation in {AdjacencyList, AdjacencyMap, AdjacencyMatrix, EdgeList, AdjacencyListWeighted<usize>, AdjacencyListWeighted<isize>}; start digraph from empty+adds, a conversion, From<rows|arcs>, a deterministic generator or a seeded random generator (order 1..24 quick / 1..70 thorough, orders 8, 9, 11, 16 over-represented for the bit matrix); then 0..40 (thorough 0..120) operations add_arc / add_arc_weighted / remove_arc / AdjacencyMatrix::toggle with vertex arguments in range (~70%), equal, = order, = order+1, far (1000, usize::MAX) and arbitrary weights; after every step order, vertices, arcs, weights, size, has_arc / arc_weight over all pairs of V + two ids outside V are compared with a BTreeSet model. Non-trivial = the history removes (or toggles off) a present arc after an add and contains a rejected call that is not the last step; distinct = distinct serialised case.";
-    const ASSUMPTIONS: &'static [&'static str] = &[
-        "panic messages are not compared",
-        "for AdjacencyMap nothing is asserted about how large an id may be (ids up to 2^20 are used)",
-        "seeded random generators: the start model is taken from the (validated) observation",
-    ];
-
-    fn legs(tier: Tier) -> Vec<Leg> {
-        vec![Leg {
-            name: "random",
-            kind: LegKind::Random {
-                cases: tier.pick(12000, 100000),
-            },
-            workers: 16,
-            build: Build::Normal,
-        }]
-    }
-
-    fn strategy(_leg: &str, tier: Tier) -> BoxedStrategy<Case> {
-        let max_order = tier.pick(24, 70);
-        let max_ops = tier.pick(40, 120);
-        (
-            0..6_u8,
-            prop_oneof![
-                3 => prop::sample::select(vec![8_usize, 9, 11, 16, 8, 9, 11, 16, 65, 66]),
-                7 => 1_usize..=max_order,
-            ],
-            (any::<u8>(), any::<u8>(), any::<u64>()),
-            vec((any::<u16>(), any::<u16>()), 0..=30),
-            vec(op_strategy(), 0..=max_ops),
-        )
-            .prop_map(|(repr, n, (via, gen_kind, seed), raw_arcs, raw_ops)| {
+/// The single mapping from raw random values to a history, shared by the
+/// proptest strategy and the libFuzzer byte decoder.
+pub fn case_from_raw(repr: u8, n: usize, via: u8, gen_kind: u8, seed: u64, raw_arcs: &[(u16, u16)], raw_ops: Vec<RawOp>) -> Case {
                 let arcs: Vec<(usize, usize)> = if n >= 2 {
                     let s: BTreeSet<_> = raw_arcs.iter().map(|&p| gen::arc_of(p, n)).collect();
                     s.into_iter().collect()
@@ -723,6 +673,90 @@ impl Prop for C01 {
                     },
                     ops,
                 }
+            }
+
+/// Decodes a libFuzzer input into a history (total).
+pub fn case_from_bytes(data: &[u8]) -> Case {
+    let mut b = crate::bytes::Bytes::new(data);
+    let repr = b.u8() % 6;
+    let n = match b.u8() {
+        x if x < 40 => [8_usize, 9, 11, 16, 65][x as usize % 5],
+        x => 1 + (x as usize % 24),
+    };
+    let (via, gen_kind, seed) = (b.u8(), b.u8(), b.u64());
+    let na = b.count(30);
+    let raw_arcs: Vec<(u16, u16)> = (0..na).map(|_| (b.u16(), b.u16())).collect();
+    let mut raw_ops = vec![];
+    while b.left() > 0 && raw_ops.len() < 60 {
+        let kind = b.u8();
+        let (ru, rv, cu, cv) = (b.u16(), b.u16(), b.u8(), b.u8());
+        let w = match b.u8() % 8 {
+            0 => b.i64(),
+            1 => i64::MAX,
+            2 => i64::MIN,
+            x => i64::from(x) - 4,
+        };
+        raw_ops.push((kind, ru, rv, cu, cv, w));
+    }
+    case_from_raw(repr, n, via, gen_kind, seed, &raw_arcs, raw_ops)
+}
+
+pub struct C01;
+
+fn op_strategy() -> impl Strategy<Value = (u8, u16, u16, u8, u8, i64)> {
+    (
+        any::<u8>(),
+        any::<u16>(),
+        any::<u16>(),
+        any::<u8>(),
+        any::<u8>(),
+        prop_oneof![
+            6 => -20..20_i64,
+            2 => any::<i64>(),
+            1 => Just(i64::MAX),
+            1 => Just(i64::MIN),
+            1 => Just(-1_i64),
+        ],
+    )
+}
+
+impl Prop for C01 {
+    type Case = Case;
+    const ID: &'static str = "C01";
+    const NUM: u64 = 1;
+    const RULE: &'static str = "stateful / model-based: representation in {AdjacencyList, AdjacencyMap, AdjacencyMatrix, EdgeList, AdjacencyListWeighted<usize>, AdjacencyListWeighted<isize>}; start digraph from empty+adds, a conversion, From<rows|arcs>, a deterministic generator or a seeded random generator (order 1..24 quick / 1..70 thorough, orders 8, 9, 11, 16 over-represented for the bit matrix); then 0..40 (thorough 0..120) operations add_arc / add_arc_weighted / remove_arc / AdjacencyMatrix::toggle with vertex arguments in range (~70%), equal, = order, = order+1, far (1000, usize::MAX) and arbitrary weights; after every step order, vertices, arcs, weights, size, has_arc / arc_weight over all pairs of V + two ids outside V are compared with a BTreeSet model. Non-trivial = the history removes (or toggles off) a present arc after an add and contains a rejected call that is not the last step; distinct = distinct serialised case.";
+    const ASSUMPTIONS: &'static [&'static str] = &[
+        "panic messages are not compared",
+        "for AdjacencyMap nothing is asserted about how large an id may be (ids up to 2^20 are used)",
+        "seeded random generators: the start model is taken from the (validated) observation",
+    ];
+
+    fn legs(tier: Tier) -> Vec<Leg> {
+        vec![Leg {
+            name: "random",
+            kind: LegKind::Random {
+                cases: tier.pick(12000, 100000),
+            },
+            workers: 16,
+            build: Build::Normal,
+        }]
+    }
+
+    fn strategy(_leg: &str, tier: Tier) -> BoxedStrategy<Case> {
+        let max_order = tier.pick(24, 70);
+        let max_ops = tier.pick(40, 120);
+        (
+            0..6_u8,
+            prop_oneof![
+                3 => prop::sample::select(vec![8_usize, 9, 11, 16, 8, 9, 11, 16, 65, 66]),
+                7 => 1_usize..=max_order,
+            ],
+            (any::<u8>(), any::<u8>(), any::<u64>()),
+            vec((any::<u16>(), any::<u16>()), 0..=30),
+            vec(op_strategy(), 0..=max_ops),
+        )
+            .prop_map(|(repr, n, (via, gen_kind, seed), raw_arcs, raw_ops)| {
+                case_from_raw(repr, n, via, gen_kind, seed, &raw_arcs, raw_ops)
             })
             .boxed()
     }
